@@ -35,6 +35,9 @@ type Case struct {
 	Reuse bool `json:"reuse,omitempty"`
 	// ReuseFail: that earlier load failed (first.json has an internal reference to nothing)
 	ReuseFail bool `json:"reuse_fail,omitempty"`
+	// SwitchedOff: the same loader loaded the same root document before with external references
+	// allowed; the switch was then turned off
+	SwitchedOff bool `json:"switched_off,omitempty"`
 	// Hosts (entry "multi-host"): two documents with the same path at locations that differ in one URL
 	// component; each one's relative references belong to its own location
 	Hosts *Hosts `json:"hosts,omitempty"`
@@ -268,6 +271,29 @@ func check(c Case) (o h.Outcome) {
 		fs.Log = nil
 		o.Class("off:reused-loader")
 	}
+	loadRoot := func() {
+		switch c.Entry {
+		case "data":
+			_, err = ld.LoadFromData(rootBytes)
+		case "datawithpath":
+			_, err = ld.LoadFromDataWithPath(rootBytes, &url.URL{Path: c.Root})
+		case "file":
+			_, err = ld.LoadFromFile(c.Root)
+		case "uri-query":
+			_, err = ld.LoadFromURI(&url.URL{Path: c.Root, RawQuery: "version=2"})
+		default:
+			_, err = ld.LoadFromURI(&url.URL{Path: c.Root})
+		}
+	}
+	if c.SwitchedOff && !c.Allow && c.Layout == nil {
+		ld.IsExternalRefsAllowed = true
+		if !o.Guarded("Load/allowed-first", loadRoot) {
+			return
+		}
+		ld.IsExternalRefsAllowed = false
+		fs.Log, err = nil, nil
+		o.Class("off:switched-off-after-an-allowed-load")
+	}
 	if !o.Guarded("Load/"+c.Entry, func() {
 		switch c.Entry {
 		case "data":
@@ -465,6 +491,12 @@ func enumerate(shard, nshards int, yield func(Case)) {
 						}
 						yield(Case{Doc: doc, Form: form, PosKind: posName(n), Root: root, Entry: e, Allow: false, Reuse: reuse})
 					}
+					if idx%7 == 0 {
+						idx++
+						if idx%nshards == shard {
+							yield(Case{Doc: doc, Form: form, PosKind: posName(n), Root: root, Entry: e, Allow: false, SwitchedOff: true})
+						}
+					}
 					if idx%5 == 0 {
 						// the loader has a failed load behind it
 						idx++
@@ -491,6 +523,7 @@ func gen(t *rapid.T) Case {
 	pos := positions(raw)
 	c := Case{Root: rapid.SampledFrom(roots).Draw(t, "root"), Entry: rapid.SampledFrom(entries).Draw(t, "entry"), Reuse: rapid.IntRange(0, 3).Draw(t, "reuse") == 0}
 	c.ReuseFail = c.Reuse && rapid.Bool().Draw(t, "reusefail")
+	c.SwitchedOff = rapid.IntRange(0, 3).Draw(t, "switchedoff") == 0
 	n := rapid.IntRange(1, 3).Draw(t, "nplant")
 	d := jv.Clone(raw).(M)
 	for i := 0; i < n && len(pos) > 0; i++ {
